@@ -16,7 +16,7 @@ EXPLANATION = (
     "{left, inside, right} for every dictionary j whose membership bit (in_dict >> j) & 1 is set, and written to "
     "{first, all (inside), last} of a vector of len+1 entries. R17.5: the bias is biases[0]."
 )
-NOT_DECIDED = ["the trie walk (dump_items) as a value", "panics on malformed but untruncated files (index out of range on char_map etc.)"]
+NOT_DECIDED = ["the order and completeness of the trie walk (dump_items) beyond the key-node table", "panics on malformed but untruncated files (index out of range on char_map etc.)"]
 
 TF = "<vaporetto::model::Model as core::convert::TryFrom<vaporetto::kytea_model::KyteaModel>>::try_from"
 KREAD = "vaporetto::kytea_model::KyteaModel::read"
@@ -39,6 +39,7 @@ def run(chk):
     for rid, txt in (("R17.1", "every read error propagates; only read_exact-based reads (+2 tolerated, followed by a helper read)"), ("R17.2", "type letter table"),
                      ("R17.3", "kind consistency and slice lengths"), ("R17.4", "dictionary offsets, roles, membership, bucket"), ("R17.5", "bias = biases[0]")):
         chk.rule(rid, txt)
+    r176(chk, w)
     fns = kytea_fns(w)
     readers = [bd.fn for bd in fns if bd.fn != TF and "closure" not in bd.fn and "dump_items" not in bd.fn]
     error_discipline(chk, w, "R17.1", sorted(readers) + HELPERS, 62)
@@ -259,3 +260,50 @@ def conversion(chk, w):
     chk.ob("R17.4", "record-layout", stores == {"[first]": "left", "[last]": "right"} and fill == {("inside", "1 + LEN")},
            "dictionary records are built as first<-%s last<-%s fill %s; expected first<-left, last<-right, len+1 entries of inside" % (stores.get("[first]"), stores.get("[last]"), sorted(fill)), site=C.site(b),
            sample={"stores": stores, "fill": sorted(fill)})
+
+
+def r176(chk, w):
+    """the walk over a KyTea trie lists exactly its keys: a node contributes an item iff it is marked as a key (is_branch);
+    inner nodes also carry output lists (inherited through failure links), so the output list cannot stand in for the mark.
+    The item is the node's own entry, entries[outputs[0]]."""
+    chk.rule("R17.6", "dump_items lists exactly the key nodes of the trie, each with its own entry")
+    fn = "vaporetto::kytea_model::Dictionary::dump_items"
+    b = w.body(fn)
+    if b is None:
+        chk.undecided("R17.6", "dump_items", "%s not found" % fn)
+        return
+    chk.fn(fn)
+    cf = cfgmod.cfg_of(b)
+    loops = cf.natural_loops()
+    it = absint.Interp(w, b, models=effects.EXTRA_MODELS, summaries=C.summaries(w))
+    heads = [h for h in loops if b.blocks[h]["term"]["k"] == "call" and (cfgmod.callee(b.blocks[h]["term"]) or "").endswith("Vec::pop")]
+    if len(heads) != 1:
+        chk.undecided("R17.6", "dump_items:loop", "expected one work-list loop (Vec::pop) in dump_items, found %d" % len(heads), site=C.site(b))
+        return
+    h = heads[0]
+    pre = [o for o in it.run(0, stop=[h]) if o.kind == "stop"]
+    rows = set()
+    if pre:
+        n0 = len(pre[0].trace)
+        for o in it.run(h, stop=set(cf.blocks) - loops[h], env=pre[0].env, cons=pre[0].cons, stop_at_entry_again=True, trace=pre[0].trace):
+            item = o.cons.get("ret:%d" % h)
+            if not item or item[2] != "Some":
+                continue
+            mark = "?"
+            for s, c in o.cons.items():
+                if s.endswith(".is_branch") and "states" in s and c[0] == "eq" and c[1][0] == "b":
+                    mark = "key" if c[1][1] else "inner"
+            nz = forms.Normalizer(it, o)
+            res = []
+            for e in o.trace[n0:]:
+                if e[0] == "call" and (e[2] or "").endswith("Vec::push") and len(e[3]) > 1 and e[3][1][0] == "agg" and e[3][1][1] == "tuple":
+                    second = dict(e[3][1][2]).get("1")
+                    if second and second[0] == "ref" and second[1][:2] == (("A", 1), ("f", "entries")):
+                        res.append(re.sub(r"ret:\d+", "ret:N", nz.path_atom(second[1]))[-70:])
+            rows.add((mark, tuple(res)))
+    okrows = {r for r in rows if r[0] in ("key", "inner")}
+    good = bool(rows) and rows == okrows and all((len(r[1]) == 1 and r[1][0].endswith("outputs.<content>.[0]]")) if r[0] == "key" else r[1] == () for r in rows) \
+        and {r[0] for r in rows} == {"key", "inner"}
+    chk.ob("R17.6", "dump_items:keys-only", good,
+           "dump_items derives (node mark, items pushed) = %s; expected one item entries[outputs[0]] for a node whose is_branch mark is set and none otherwise" % sorted(rows),
+           site=C.site(b, h), sample={"rows": sorted(map(str, rows))})
